@@ -1,4 +1,750 @@
-//! C13: not built yet.
-use crate::util::Ctx;
+//! C13 — building from several sources is compositional; extensions before / after their definition.
+//!
+//! Streams: `c13.schema` (structured definitions with positions ↦ built schema dump + sorted diagnostics,
+//! against the Lean model of SchemaBuilder) and `c13.exec` (ExecutableDocumentBuilder bookkeeping).
+//! Oracle (implementation against itself, written from the property text): k sources vs their
+//! concatenation; extensions moved behind / in front of their definition.
+use crate::util::*;
+use apollo_compiler::diagnostic::ToCliReport;
+use apollo_compiler::parser::SourceSpan;
+use apollo_compiler::schema::{ComponentOrigin, ExtendedType};
+use apollo_compiler::validation::{DiagnosticList, Valid};
+use apollo_compiler::{ExecutableDocument, Schema};
+use std::collections::HashMap;
 
-pub fn run(_ctx: &mut Ctx) {}
+const KIND_CH: [&str; 6] = ["s", "o", "i", "u", "e", "n"];
+const KIND_KW: [&str; 6] = ["scalar", "type", "interface", "union", "enum", "input"];
+const BUILTIN_TYPES: [&str; 13] = ["__Schema", "__Type", "__TypeKind", "__Field", "__InputValue", "__EnumValue", "__Directive",
+    "__DirectiveLocation", "Int", "Float", "String", "Boolean", "ID"];
+
+#[derive(Clone, Copy, PartialEq, Eq, Debug)]
+enum Tag { SchemaDef, SchemaExt, DirDef, TypeDef, TypeExt, Op, Frag }
+
+/// one definition, structurally; `kind` indexes KIND_* for type definitions / extensions
+#[derive(Clone, Debug)]
+struct D {
+    tag: Tag,
+    kind: usize,
+    name: String,
+    dirs: Vec<String>,
+    ifaces: Vec<String>,
+    /// fields / values / members / input fields: (name, ""); root operations: (operation type, object type)
+    members: Vec<(String, String)>,
+}
+
+/// rendered definition: text plus offsets relative to its start
+struct R { text: String, name_pos: usize, dirs: Vec<usize>, ifaces: Vec<usize>, members: Vec<(usize, usize)> }
+
+fn render(d: &D) -> R {
+    let mut t = String::new();
+    let mut r = R { text: String::new(), name_pos: 0, dirs: vec![], ifaces: vec![], members: vec![] };
+    let push_dirs = |t: &mut String, r: &mut R| for x in &d.dirs { t.push(' '); r.dirs.push(t.len()); t.push('@'); t.push_str(x); };
+    match d.tag {
+        Tag::SchemaDef | Tag::SchemaExt => {
+            if d.tag == Tag::SchemaExt { t.push_str("extend "); }
+            t.push_str("schema");
+            r.name_pos = 0;
+            push_dirs(&mut t, &mut r);
+            if !d.members.is_empty() {
+                t.push_str(" {");
+                for (op, target) in &d.members {
+                    t.push(' ');
+                    let e = t.len();
+                    t.push_str(op); t.push_str(": ");
+                    let p = t.len();
+                    t.push_str(target);
+                    r.members.push((p, e));
+                }
+                t.push_str(" }");
+            }
+        }
+        Tag::DirDef => {
+            t.push_str("directive @");
+            r.name_pos = t.len();
+            t.push_str(&d.name);
+            t.push_str(" on SCHEMA | SCALAR | OBJECT | INTERFACE | UNION | ENUM | INPUT_OBJECT | FIELD");
+        }
+        Tag::Op => { t.push_str("query "); r.name_pos = t.len(); t.push_str(&d.name); t.push_str(" { a }"); }
+        Tag::Frag => { t.push_str("fragment "); r.name_pos = t.len(); t.push_str(&d.name); t.push_str(" on Query { a }"); }
+        Tag::TypeDef | Tag::TypeExt => {
+            if d.tag == Tag::TypeExt { t.push_str("extend "); }
+            t.push_str(KIND_KW[d.kind]); t.push(' ');
+            r.name_pos = t.len();
+            t.push_str(&d.name);
+            if !d.ifaces.is_empty() {
+                t.push_str(" implements");
+                for (i, x) in d.ifaces.iter().enumerate() { t.push_str(if i == 0 { " " } else { " & " }); r.ifaces.push(t.len()); t.push_str(x); }
+            }
+            push_dirs(&mut t, &mut r);
+            if !d.members.is_empty() {
+                if d.kind == 3 {
+                    t.push_str(" =");
+                    for (i, (m, _)) in d.members.iter().enumerate() { t.push_str(if i == 0 { " " } else { " | " }); let p = t.len(); r.members.push((p, p)); t.push_str(m); }
+                } else {
+                    t.push_str(" {");
+                    for (m, _) in &d.members {
+                        t.push(' ');
+                        let p = t.len(); r.members.push((p, p));
+                        t.push_str(m);
+                        if d.kind != 4 { t.push_str(": Int"); }
+                    }
+                    t.push_str(" }");
+                }
+            }
+        }
+    }
+    r.text = t;
+    r
+}
+
+/// sources as texts + the case-line encoding with global positions (offsets in the concatenation)
+fn assemble(srcs: &[Vec<D>]) -> (Vec<String>, Vec<usize>, String) {
+    let mut texts = vec![];
+    let mut bases = vec![];
+    let mut enc_srcs = vec![];
+    let mut base = 0usize;
+    for src in srcs {
+        bases.push(base);
+        let mut text = String::new();
+        let mut enc_defs = vec![];
+        for d in src {
+            let r = render(d);
+            let start = base + text.len();
+            let tag = match d.tag {
+                Tag::SchemaDef => "S".to_string(), Tag::SchemaExt => "X".to_string(), Tag::DirDef => "D".to_string(),
+                Tag::Op => "O".to_string(), Tag::Frag => "F".to_string(),
+                Tag::TypeDef => format!("T{}", KIND_CH[d.kind]), Tag::TypeExt => format!("E{}", KIND_CH[d.kind]),
+            };
+            let items = |names: Vec<(&String, &str)>, poss: Vec<(usize, usize)>| -> String {
+                names.iter().zip(poss.iter()).map(|((n, t), (p, e))| format!("{n}:{}:{}:{t}", start + p, start + e)).collect::<Vec<_>>().join("+")
+            };
+            let dirs = items(d.dirs.iter().map(|n| (n, "")).collect(), r.dirs.iter().map(|p| (*p, *p)).collect());
+            let ifs = items(d.ifaces.iter().map(|n| (n, "")).collect(), r.ifaces.iter().map(|p| (*p, *p)).collect());
+            let ms = items(d.members.iter().map(|(n, t)| (n, t.as_str())).collect(), r.members.clone());
+            let name = if d.name.is_empty() { "-" } else { &d.name };
+            enc_defs.push(format!("{tag},{name},{start},{},{dirs},{ifs},{ms}", start + r.name_pos));
+            text.push_str(&r.text);
+            text.push('\n');
+        }
+        base += text.len();
+        texts.push(text);
+        enc_srcs.push(enc_defs.join(";"));
+    }
+    (texts, bases, enc_srcs.join("|"))
+}
+
+struct Built { schema: Schema, errors: Option<DiagnosticList> }
+
+fn build_schema(texts: &[String], adopt: bool, ignore: bool) -> Built {
+    let mut b = Schema::builder();
+    if adopt { b = b.adopt_orphan_extensions(); }
+    if ignore { b = b.ignore_builtin_redefinitions(); }
+    for (i, t) in texts.iter().enumerate() { b = b.parse(t.clone(), format!("s{i}.graphql")); }
+    match b.build() {
+        Ok(s) => Built { schema: s, errors: None },
+        Err(e) => Built { schema: e.partial, errors: Some(e.errors) },
+    }
+}
+
+/// location ↦ offset in the concatenation of the sources
+struct Locs { by_file: HashMap<apollo_compiler::parser::FileId, usize>, bases: Vec<usize> }
+impl Locs {
+    fn new(schema_sources: &apollo_compiler::parser::SourceMap, bases: &[usize]) -> Self {
+        let mut by_file = HashMap::new();
+        for (id, f) in schema_sources.iter() {
+            let p = f.path().to_string_lossy().to_string();
+            if let Some(n) = p.strip_prefix('s').and_then(|x| x.strip_suffix(".graphql")).and_then(|x| x.parse::<usize>().ok()) { by_file.insert(*id, n); }
+        }
+        Locs { by_file, bases: bases.to_vec() }
+    }
+    fn pos(&self, l: Option<SourceSpan>) -> Option<usize> {
+        let l = l?;
+        let i = *self.by_file.get(&l.file_id())?;
+        Some(self.bases.get(i).copied().unwrap_or(0) + l.offset())
+    }
+}
+
+/// how positions and extension identities are printed
+enum Mode<'a> { Positions(&'a Locs), Ordinal(std::cell::RefCell<Vec<Option<SourceSpan>>>) }
+impl Mode<'_> {
+    fn p(&self, l: Option<SourceSpan>) -> String {
+        match self { Mode::Positions(lo) => format!("@{}", lo.pos(l).map(|x| x.to_string()).unwrap_or("-".into())), Mode::Ordinal(_) => String::new() }
+    }
+    fn bare(&self, l: Option<SourceSpan>) -> String {
+        match self { Mode::Positions(lo) => lo.pos(l).map(|x| x.to_string()).unwrap_or("-".into()), Mode::Ordinal(_) => "_".into() }
+    }
+    fn origin(&self, o: &ComponentOrigin) -> String {
+        match o.extension_id() {
+            None => "d".into(),
+            Some(id) => match self {
+                Mode::Positions(lo) => lo.pos(id.location()).map(|x| x.to_string()).unwrap_or("-".into()),
+                Mode::Ordinal(seen) => {
+                    // extension identity = its location (two extensions never share one); numbered by first appearance
+                    let mut s = seen.borrow_mut();
+                    let l = id.location();
+                    let i = match s.iter().position(|x| *x == l) { Some(i) => i, None => { s.push(l); s.len() - 1 } };
+                    format!("e{i}")
+                }
+            },
+        }
+    }
+}
+
+fn dump_schema(s: &Schema, m: &Mode) -> String {
+    let mut types = vec![];
+    for (name, ty) in &s.types {
+        let bi = ty.is_built_in();
+        let keep = |o: &ComponentOrigin| !bi || o.extension_id().is_some();
+        let dirs: Vec<String> = ty.directives().iter().filter(|c| keep(&c.origin)).map(|c| format!("{}{}^{}", c.name, m.p(c.node.location()), m.origin(&c.origin))).collect();
+        let cn = |c: &apollo_compiler::schema::ComponentName| format!("{}{}^{}", c.name, m.p(c.name.location()), m.origin(&c.origin));
+        let (k, ifs, ms): (usize, Vec<String>, Vec<String>) = match ty {
+            ExtendedType::Scalar(_) => (0, vec![], vec![]),
+            ExtendedType::Object(o) => (1, o.implements_interfaces.iter().filter(|c| keep(&c.origin)).map(cn).collect(),
+                o.fields.iter().filter(|(_, c)| keep(&c.origin)).map(|(n, c)| format!("{n}{}^{}", m.p(c.node.location()), m.origin(&c.origin))).collect()),
+            ExtendedType::Interface(o) => (2, o.implements_interfaces.iter().filter(|c| keep(&c.origin)).map(cn).collect(),
+                o.fields.iter().filter(|(_, c)| keep(&c.origin)).map(|(n, c)| format!("{n}{}^{}", m.p(c.node.location()), m.origin(&c.origin))).collect()),
+            ExtendedType::Union(o) => (3, vec![], o.members.iter().filter(|c| keep(&c.origin)).map(cn).collect()),
+            ExtendedType::Enum(o) => (4, vec![], o.values.iter().filter(|(_, c)| keep(&c.origin)).map(|(n, c)| format!("{n}{}^{}", m.p(c.node.location()), m.origin(&c.origin))).collect()),
+            ExtendedType::InputObject(o) => (5, vec![], o.fields.iter().filter(|(_, c)| keep(&c.origin)).map(|(n, c)| format!("{n}{}^{}", m.p(c.node.location()), m.origin(&c.origin))).collect()),
+        };
+        if bi && dirs.is_empty() && ifs.is_empty() && ms.is_empty() { continue; }
+        let pos = if bi { "-".to_string() } else { m.bare(ty.location()) };
+        types.push(format!("{name}/{}/{pos}{{d:{}}}{{i:{}}}{{m:{}}}", KIND_CH[k], dirs.join(","), ifs.join(","), ms.join(",")));
+    }
+    let sd = &s.schema_definition;
+    let root = |r: &Option<apollo_compiler::schema::ComponentName>| match r { Some(c) => format!("{}{}^{}", c.name, m.p(c.name.location()), m.origin(&c.origin)), None => "-".into() };
+    let sdirs: Vec<String> = sd.directives.iter().map(|c| format!("{}{}^{}", c.name, m.p(c.node.location()), m.origin(&c.origin))).collect();
+    let ddefs: Vec<String> = s.directive_definitions.iter().filter(|(_, d)| !d.is_built_in()).map(|(n, d)| format!("{n}{}", m.p(d.location()))).collect();
+    format!("T[{}]S[{}{{d:{}}}{{q:{}}}{{m:{}}}{{s:{}}}]D[{}]", types.join(" "), m.bare(sd.location()), sdirs.join(","), root(&sd.query), root(&sd.mutation), root(&sd.subscription), ddefs.join(","))
+}
+
+/// message ↦ model code, learned by probing the implementation (independent of message wording)
+struct Templates { map: HashMap<String, (String, Vec<char>)> }
+
+fn backticked(msg: &str) -> (String, Vec<String>) {
+    let mut norm = String::new();
+    let mut segs = vec![];
+    let mut cur: Option<String> = None;
+    for c in msg.chars() {
+        if c == '`' {
+            match cur.take() { Some(s) => { segs.push(s); norm.push_str("`_`"); } None => cur = Some(String::new()) }
+        } else if let Some(s) = cur.as_mut() { s.push(c) } else { norm.push(c) }
+    }
+    (norm, segs)
+}
+
+impl Templates {
+    fn learn_msg(&mut self, msg: &str, code: &str) {
+        let (norm, segs) = backticked(msg);
+        let order = segs.iter().map(|s| match s.trim_start_matches('@') { "Zzt" => 'T', "zzm" | "Zzm" => 'M', "Zzi" => 'I', "zzd" => 'D', "Zzo" => 'O', "Zzf" => 'F', "query" => 'Q', _ => '?' }).collect();
+        self.map.entry(norm).or_insert((code.to_string(), order));
+    }
+    fn learn_schema(&mut self, src: &str, code: &str) {
+        let b = build_schema(&[src.to_string()], false, false);
+        if let Some(e) = &b.errors { if let Some(d) = e.iter().next() { let m = d.error.to_string(); self.learn_msg(&m, code); } }
+    }
+    fn classify(&self, msg: &str) -> String {
+        let (norm, segs) = backticked(msg);
+        match self.map.get(&norm) {
+            None => format!("other<{}>", msg.replace(['\t', '\n'], " ")),
+            Some((code, order)) => {
+                let mut out = code.clone();
+                for (seg, o) in segs.iter().zip(order.iter()) {
+                    let seg = seg.trim_start_matches('@');
+                    out = out.replace(&format!("{{{o}}}"), seg);
+                }
+                out
+            }
+        }
+    }
+    fn new(xschema: &Valid<Schema>) -> Self {
+        let mut t = Templates { map: HashMap::new() };
+        t.learn_schema("query Zq { a }", "exec0");
+        t.learn_schema("fragment Zf on T { a }", "exec1");
+        t.learn_schema("schema { query: Q } schema { query: Q }", "schemacoll");
+        t.learn_schema("directive @zzd on FIELD directive @zzd on FIELD", "dircoll({D})");
+        t.learn_schema("type Zzt { a: Int } type Zzt { a: Int }", "typecoll({T})");
+        t.learn_schema("scalar Int", "builtinscalar");
+        t.learn_schema("extend schema @zzd", "orphanschema");
+        t.learn_schema("extend type Zzt { a: Int }", "orphantype({T})");
+        t.learn_schema("schema { query: Q query: Q }", "duproot({Q})");
+        t.learn_schema("type Zzt implements Zzi & Zzi { a: Int }", "dupiface(o,{T},{I})");
+        t.learn_schema("interface Zzt implements Zzi & Zzi { a: Int }", "dupiface(i,{T},{I})");
+        t.learn_schema("type Zzt { zzm: Int zzm: Int }", "dupmember(o,{T},{M})");
+        t.learn_schema("interface Zzt { zzm: Int zzm: Int }", "dupmember(i,{T},{M})");
+        t.learn_schema("union Zzt = Zzm | Zzm", "dupmember(u,{T},{M})");
+        t.learn_schema("enum Zzt { Zzm Zzm }", "dupmember(e,{T},{M})");
+        t.learn_schema("input Zzt { zzm: Int zzm: Int }", "dupmember(n,{T},{M})");
+        let body = |k: usize| match k { 0 => " @zzd", 3 => " = Zzm", 4 => " { Zzm }", _ => " { zzm: Int }" };
+        for dk in 0..6 { for ek in 0..6 { if dk != ek {
+            t.learn_schema(&format!("{} Zzt{}\nextend {} Zzt{}", KIND_KW[dk], body(dk), KIND_KW[ek], body(ek)), &format!("mismatch({{T}},{},{})", KIND_CH[ek], KIND_CH[dk]));
+        } } }
+        // executable builder
+        let mut lx = |src: &str, code: &str| {
+            let mut errors = DiagnosticList::new(Default::default());
+            let _ = ExecutableDocument::builder(Some(xschema), &mut errors).parse(src, "p.graphql").build();
+            let m: Option<String> = errors.iter().next().map(|d| d.error.to_string());
+            if let Some(m) = m { t.learn_msg(&m, code); }
+        };
+        lx("{ a } { b }", "ambiguous");
+        lx("mutation Zzo { a }", "undefroot");
+        lx("query Zzo { a } query Zzo { a }", "opcoll({O})");
+        lx("fragment Zzf on Query { a } fragment Zzf on Query { a }", "fragcoll({F})");
+        lx("fragment Zzf on Nope { a }", "undefcond({F})");
+        lx("scalar Zzt", "typesys");
+        lx("query Zzo { zzm }", "undeffield");
+        lx("{ zzm }", "undeffield");
+        lx("fragment Zzf on Query { zzm }", "undeffield");
+        t
+    }
+}
+
+fn messages(e: &Option<DiagnosticList>) -> Vec<String> {
+    match e { None => vec![], Some(l) => l.iter().map(|d| d.error.to_string()).collect() }
+}
+
+fn diag_line(e: &Option<DiagnosticList>, locs: &Locs, tpl: &Templates) -> String {
+    match e {
+        None => String::new(),
+        Some(l) => l.iter().map(|d| format!("{}:{}", locs.pos(d.error.location()).map(|x| x.to_string()).unwrap_or("-".into()), tpl.classify(&d.error.to_string()))).collect::<Vec<_>>().join(","),
+    }
+}
+
+fn sorted(mut v: Vec<String>) -> Vec<String> { v.sort(); v }
+
+/// `b` = `a` plus exactly `extra` further messages (as multisets)?
+fn multiset_plus(a: &[String], b: &[String], extra: usize) -> bool {
+    if b.len() != a.len() + extra { return false; }
+    let mut rest: Vec<&String> = b.iter().collect();
+    for x in a { match rest.iter().position(|y| *y == x) { Some(i) => { rest.swap_remove(i); } None => return false } }
+    true
+}
+
+fn is_builtin_name(n: &str) -> bool { BUILTIN_TYPES.contains(&n) }
+
+/// number of type extensions that sit before the first definition of their (non built-in) type and have another kind
+fn mismatched_orphans(ds: &[D]) -> usize {
+    let mut n = 0;
+    for (i, e) in ds.iter().enumerate() {
+        if e.tag != Tag::TypeExt || is_builtin_name(&e.name) { continue; }
+        if ds[..i].iter().any(|d| d.tag == Tag::TypeDef && d.name == e.name) { continue; }
+        if let Some(d) = ds[i..].iter().find(|d| d.tag == Tag::TypeDef && d.name == e.name) { if d.kind != e.kind { n += 1; } }
+    }
+    n
+}
+
+/// every extension that precedes the first definition of its type (or `schema`) moved directly behind it,
+/// keeping the relative order of the extensions of one type
+fn normalize(ds: &[D]) -> Vec<D> {
+    let mut out: Vec<D> = vec![];
+    let mut held: Vec<D> = vec![];
+    let mut schema_seen = false;
+    let mut defined: Vec<String> = BUILTIN_TYPES.iter().map(|s| s.to_string()).collect();
+    for (i, d) in ds.iter().enumerate() {
+        match d.tag {
+            Tag::TypeExt if !defined.contains(&d.name) && ds[i..].iter().any(|x| x.tag == Tag::TypeDef && x.name == d.name) => held.push(d.clone()),
+            Tag::SchemaExt if !schema_seen && ds[i..].iter().any(|x| x.tag == Tag::SchemaDef) => held.push(d.clone()),
+            Tag::TypeDef => {
+                out.push(d.clone());
+                if !defined.contains(&d.name) {
+                    defined.push(d.name.clone());
+                    let (mine, rest): (Vec<D>, Vec<D>) = held.drain(..).partition(|x| x.tag == Tag::TypeExt && x.name == d.name);
+                    out.extend(mine); held = rest;
+                }
+            }
+            Tag::SchemaDef => {
+                out.push(d.clone());
+                if !schema_seen {
+                    schema_seen = true;
+                    let (mine, rest): (Vec<D>, Vec<D>) = held.drain(..).partition(|x| x.tag == Tag::SchemaExt);
+                    out.extend(mine); held = rest;
+                }
+            }
+            _ => out.push(d.clone()),
+        }
+    }
+    debug_assert!(held.is_empty());
+    out
+}
+
+/// the first extension behind the first definition of some type (or of `schema`) moved directly in front of it
+fn demote(ds: &[D], pick: usize) -> Option<Vec<D>> {
+    let mut cands = vec![];
+    for (i, d) in ds.iter().enumerate() {
+        let first = match d.tag {
+            Tag::TypeDef => !is_builtin_name(&d.name) && !ds[..i].iter().any(|x| x.tag == Tag::TypeDef && x.name == d.name),
+            Tag::SchemaDef => !ds[..i].iter().any(|x| x.tag == Tag::SchemaDef),
+            _ => false,
+        };
+        if !first { continue; }
+        let j = ds[i + 1..].iter().position(|x| if d.tag == Tag::TypeDef { x.tag == Tag::TypeExt && x.name == d.name } else { x.tag == Tag::SchemaExt });
+        if let Some(j) = j { cands.push((i, i + 1 + j)); }
+    }
+    if cands.is_empty() { return None; }
+    let (i, j) = cands[pick % cands.len()];
+    let mut v = ds.to_vec();
+    let e = v.remove(j);
+    v.insert(i, e);
+    Some(v)
+}
+
+fn show(srcs: &[String]) -> String { srcs.iter().map(|s| s.replace('\n', " ")).collect::<Vec<_>>().join(" ||| ") }
+
+struct Obs { dump: String, text: String, msgs: Vec<String> }
+
+fn observe(texts: &[String], adopt: bool, ignore: bool) -> (Built, Obs) {
+    let b = build_schema(texts, adopt, ignore);
+    let o = Obs { dump: dump_schema(&b.schema, &Mode::Ordinal(Default::default())), text: b.schema.to_string(), msgs: messages(&b.errors) };
+    (b, o)
+}
+
+fn correspond(ctx: &mut Ctx, tpl: &Templates, srcs: &[Vec<D>], adopt: bool, ignore: bool) -> Obs {
+    let (texts, bases, enc_srcs) = assemble(srcs);
+    let (b, o) = observe(&texts, adopt, ignore);
+    let locs = Locs::new(&b.schema.sources, &bases);
+    let line = format!("{}E[{}]", dump_schema(&b.schema, &Mode::Positions(&locs)), diag_line(&b.errors, &locs, tpl));
+    if let Some(l) = &b.errors { for d in l.iter() { let c = tpl.classify(&d.error.to_string()); ctx.stat(&format!("schema_diag:{}", c.split('(').next().unwrap_or("?"))); } }
+    else { ctx.stat("schema_builds_without_diagnostics"); }
+    if adopt { ctx.stat("schema_builds_adopt_orphan_extensions"); }
+    if ignore { ctx.stat("schema_builds_ignore_builtin_redefinitions"); }
+    ctx.stat(&format!("schema_builds_from_{}_sources", srcs.len()));
+    ctx.case("c13.schema", &[enc(&format!("{}{}", adopt as u8, ignore as u8)), enc(&enc_srcs)], &line);
+    o
+}
+
+fn schema_case(ctx: &mut Ctx, tpl: &Templates, ds: &[D], cuts: &[usize], adopt: bool, ignore: bool, pick: usize) {
+    // cut into sources
+    let mut srcs: Vec<Vec<D>> = vec![];
+    let mut prev = 0;
+    for &c in cuts { srcs.push(ds[prev..c].to_vec()); prev = c; }
+    srcs.push(ds[prev..].to_vec());
+    let split = correspond(ctx, tpl, &srcs, adopt, ignore);
+    let (texts, _, _) = assemble(&srcs);
+    let concat = vec![texts.concat()];
+    let inp = format!("adopt={adopt} ignore_builtin={ignore} sources: {}", show(&texts));
+    // --- oracle 1: k sources vs their concatenation
+    let whole = if srcs.len() > 1 { correspond(ctx, tpl, &[ds.to_vec()], adopt, ignore) } else { observe(&concat, adopt, ignore).1 };
+    if srcs.len() > 1 {
+        ctx.stat("split_vs_concat");
+        if split.dump != whole.dump { ctx.fail("sources-vs-concat-definitions", &inp, &format!("built schema differs: split {} / concatenated {}", split.dump, whole.dump)); }
+        else if split.text != whole.text { ctx.fail("sources-vs-concat-serialized", &inp, "serialized schema differs"); }
+        if split.msgs != whole.msgs { ctx.fail("sources-vs-concat-diagnostics", &inp, &format!("diagnostics differ: split {:?} / concatenated {:?}", split.msgs, whole.msgs)); }
+        if !whole.msgs.is_empty() { ctx.stat("split_vs_concat_with_diagnostics"); }
+    }
+    // --- oracle 2: extensions behind / in front of their definition
+    let m0 = mismatched_orphans(ds);
+    let mut variants: Vec<(&str, Vec<D>)> = vec![];
+    let nz = normalize(ds);
+    if nz.iter().map(|d| render(d).text).collect::<Vec<_>>() != ds.iter().map(|d| render(d).text).collect::<Vec<_>>() { variants.push(("extensions moved behind their definition", nz)); }
+    if let Some(v) = demote(ds, pick) { variants.push(("extension moved in front of its definition", v)); }
+    for (what, v) in variants {
+        ctx.stat("moved_extension_variants");
+        let m1 = mismatched_orphans(&v);
+        let var = correspond(ctx, tpl, &[v.clone()], adopt, ignore);
+        let (vt, _, _) = assemble(&[v.clone()]);
+        let vinp = format!("adopt={adopt} ignore_builtin={ignore} original: {} / {what}: {}", show(&concat), show(&vt));
+        ctx.nontrivial(&vinp);
+        let same_schema = var.dump == whole.dump && var.text == whole.text;
+        let same_diags = sorted(var.msgs.clone()) == sorted(whole.msgs.clone());
+        if m0 > 0 || m1 > 0 { ctx.stat("moved_with_kind_mismatched_orphan"); }
+        if same_schema && same_diags { continue; }
+        // the recorded defect: a kind-mismatched extension queued before its definition is dropped silently,
+        // so the ordering with more such extensions has exactly that many diagnostics fewer
+        let (fewer, more, gap) = if m0 >= m1 { (&whole.msgs, &var.msgs, m0 - m1) } else { (&var.msgs, &whole.msgs, m1 - m0) };
+        if same_schema && gap > 0 && multiset_plus(fewer, more, gap) {
+            ctx.fail("kind-mismatched-orphan-extension-dropped", &vinp, &format!("{gap} diagnostic(s) missing when the extension comes first: {:?} vs {:?}", fewer, more));
+        } else if !same_schema {
+            ctx.fail("moved-extension-changes-schema", &vinp, &format!("original {} / moved {}", whole.dump, var.dump));
+        } else {
+            ctx.fail("moved-extension-changes-diagnostics", &vinp, &format!("original {:?} / moved {:?}", whole.msgs, var.msgs));
+        }
+    }
+    if !whole.msgs.is_empty() { ctx.stat("cases_with_diagnostics"); }
+    ctx.nontrivial(&inp);
+}
+
+// ---------------------------------------------------------------- generators
+
+fn gen_def(ctx: &mut Ctx, names: &[&str]) -> D {
+    let r = ctx.rng.below(100);
+    let tag = if r < 34 { Tag::TypeDef } else if r < 70 { Tag::TypeExt } else if r < 77 { Tag::SchemaDef } else if r < 88 { Tag::SchemaExt } else if r < 95 { Tag::DirDef } else if r < 98 { Tag::Op } else { Tag::Frag };
+    let dirs: Vec<String> = (0..ctx.rng.below(3)).map(|_| ctx.rng.pick(&["d0", "d1", "deprecated"]).to_string()).collect();
+    match tag {
+        Tag::SchemaDef | Tag::SchemaExt => {
+            let n = if tag == Tag::SchemaDef { 1 + ctx.rng.below(3) } else if dirs.is_empty() { 1 + ctx.rng.below(2) } else { ctx.rng.below(3) };
+            let members = (0..n).map(|_| (ctx.rng.pick(&["query", "query", "mutation", "subscription"]).to_string(), ctx.rng.pick(&["Query", "T0", "T1", "Mutation"]).to_string())).collect();
+            D { tag, kind: 0, name: String::new(), dirs, ifaces: vec![], members }
+        }
+        Tag::DirDef => D { tag, kind: 0, name: ctx.rng.pick(&["d0", "d1", "skip", "deprecated"]).to_string(), dirs: vec![], ifaces: vec![], members: vec![] },
+        Tag::Op | Tag::Frag => D { tag, kind: 0, name: ctx.rng.pick(&["Q0", "Q1"]).to_string(), dirs: vec![], ifaces: vec![], members: vec![] },
+        Tag::TypeDef | Tag::TypeExt => {
+            let name = ctx.rng.pick(names).to_string();
+            // a name has a "home" kind so that matching extensions are common; sometimes another kind
+            let home = match name.as_str() { "Int" | "ID" => 0, "__Type" => 1, "__TypeKind" => 4, "Query" | "Mutation" | "Subscription" => 1,
+                n => (n.bytes().last().unwrap_or(b'0') as usize + 1) % 6 };
+            let kind = if ctx.rng.chance(3, 4) { home } else { ctx.rng.below(6) };
+            let mut dirs = dirs;
+            let ifaces: Vec<String> = if kind == 1 || kind == 2 { (0..ctx.rng.below(3)).map(|_| ctx.rng.pick(&["I0", "I1", "T2"]).to_string()).collect() } else { vec![] };
+            let nm = if kind == 0 { 0 } else { ctx.rng.below(4) };
+            let pool: &[&str] = match kind { 3 => &["T0", "T1", "Query"], 4 => &["V0", "V1", "V2"], _ => &["f0", "f1", "f2"] };
+            let members: Vec<(String, String)> = (0..nm).map(|_| (ctx.rng.pick(pool).to_string(), String::new())).collect();
+            if tag == Tag::TypeExt && dirs.is_empty() && ifaces.is_empty() && members.is_empty() { dirs.push("d0".into()); }
+            D { tag, kind, name, dirs, ifaces, members }
+        }
+    }
+}
+
+fn t(kind: usize, name: &str, members: &[&str]) -> D { D { tag: Tag::TypeDef, kind, name: name.into(), dirs: vec![], ifaces: vec![], members: members.iter().map(|m| (m.to_string(), String::new())).collect() } }
+fn e(kind: usize, name: &str, members: &[&str]) -> D { D { tag: Tag::TypeExt, ..t(kind, name, members) } }
+fn with_dirs(mut d: D, dirs: &[&str]) -> D { d.dirs = dirs.iter().map(|s| s.to_string()).collect(); d }
+fn with_ifaces(mut d: D, i: &[&str]) -> D { d.ifaces = i.iter().map(|s| s.to_string()).collect(); d }
+fn sch(tag: Tag, dirs: &[&str], roots: &[(&str, &str)]) -> D { D { tag, kind: 0, name: String::new(), dirs: dirs.iter().map(|s| s.to_string()).collect(), ifaces: vec![], members: roots.iter().map(|(a, b)| (a.to_string(), b.to_string())).collect() } }
+fn dirdef(name: &str) -> D { D { tag: Tag::DirDef, kind: 0, name: name.into(), dirs: vec![], ifaces: vec![], members: vec![] } }
+
+fn regressions() -> Vec<Vec<D>> {
+    vec![
+        // the recorded defect: kind-mismatched extension before / after the definition
+        vec![e(3, "X", &["A"]), t(1, "X", &["f0"])],
+        vec![t(1, "X", &["f0"]), e(3, "X", &["A"])],
+        vec![e(4, "X", &["V0"]), e(1, "X", &["f1"]), t(0, "S", &[]), t(1, "X", &["f0", "f1"]), e(1, "X", &["f0"])],
+        // duplicates inside and across definition and extensions
+        vec![e(1, "T0", &["f0", "f0"]), t(1, "T0", &["f1", "f1", "f0"]), e(1, "T0", &["f1", "f2"])],
+        vec![with_ifaces(e(1, "T0", &[]), &["I0", "I0"]), with_ifaces(t(1, "T0", &["f0"]), &["I0", "I1"]), with_ifaces(e(2, "T0", &[]), &["I1"])],
+        vec![e(3, "U", &["A", "B", "A"]), t(3, "U", &["B", "C"]), e(3, "U", &["C", "D"])],
+        vec![e(4, "E", &["V0"]), t(4, "E", &["V0", "V1", "V1"]), e(4, "E", &["V2", "V2"])],
+        vec![e(5, "N", &["f0"]), t(5, "N", &["f0"]), t(5, "N", &["f1"]), e(5, "N", &["f1"])],
+        // collisions: type, directive, built-ins
+        vec![t(1, "T0", &["f0"]), t(3, "T0", &["A"]), e(3, "T0", &["B"]), e(1, "T0", &["f1"])],
+        vec![t(0, "Int", &[]), t(1, "Int", &["f0"]), with_dirs(e(0, "Int", &[]), &["d0"]), e(1, "Int", &["f0"]), t(1, "__Type", &["f0"]), e(1, "__Type", &["f9"]), with_dirs(e(4, "__TypeKind", &["V9"]), &["d1"])],
+        vec![dirdef("d0"), dirdef("skip"), dirdef("d0"), dirdef("skip"), dirdef("skip")],
+        // schema definition and extensions in every order
+        vec![sch(Tag::SchemaExt, &["d0"], &[("mutation", "T1")]), sch(Tag::SchemaExt, &[], &[("query", "T0")]), sch(Tag::SchemaDef, &["d1"], &[("query", "Query"), ("query", "T1")]), sch(Tag::SchemaExt, &[], &[("mutation", "T0"), ("subscription", "T0")]), sch(Tag::SchemaDef, &[], &[("query", "T0")])],
+        vec![sch(Tag::SchemaExt, &["d0"], &[("query", "T0")]), t(1, "Query", &["f0"]), sch(Tag::SchemaExt, &[], &[("mutation", "Query")])],
+        vec![sch(Tag::SchemaExt, &["d0"], &[]), t(1, "T0", &["f0"])],
+        vec![sch(Tag::SchemaExt, &["d0"], &[]), t(3, "Query", &["T0"]), t(1, "Mutation", &["f0"]), t(1, "Subscription", &["f0"])],
+        // orphans never defined (errors, or adopted)
+        vec![e(1, "T0", &["f0"]), e(3, "T1", &["A"]), e(1, "T0", &["f0", "f1"]), e(4, "T1", &["V0"]), e(3, "T1", &["A", "B"]), e(1, "Query", &["f0"])],
+        // executable definitions in a schema document
+        vec![D { tag: Tag::Op, kind: 0, name: "Q0".into(), dirs: vec![], ifaces: vec![], members: vec![] }, t(1, "T0", &["f0"]), D { tag: Tag::Frag, kind: 0, name: "F0".into(), dirs: vec![], ifaces: vec![], members: vec![] }],
+    ]
+}
+
+// ---------------------------------------------------------------- executable documents
+
+#[derive(Clone)]
+struct X { kind: u8 /* 0 op, 1 fragment, 2 type system */, optype: &'static str, name: Option<String>, cond: &'static str, fields: Vec<&'static str> }
+
+fn xrender(x: &X) -> (String, usize, usize, Vec<usize>) {
+    let mut t = String::new();
+    let (mut np, mut cp) = (0, 0);
+    let mut inner = vec![];
+    match x.kind {
+        2 => { t.push_str("scalar "); np = t.len(); t.push_str(x.name.as_deref().unwrap_or("S")); }
+        1 => { t.push_str("fragment "); np = t.len(); t.push_str(x.name.as_deref().unwrap_or("F")); t.push_str(" on "); cp = t.len(); t.push_str(x.cond); }
+        _ => {
+            if let Some(n) = &x.name { t.push_str(x.optype); t.push(' '); np = t.len(); t.push_str(n); } else if x.optype != "query" { t.push_str(x.optype); }
+        }
+    }
+    if x.kind != 2 {
+        t.push_str(if t.is_empty() { "{" } else { " {" });
+        for f in &x.fields { t.push(' '); if *f == "zz" { inner.push(t.len()); } t.push_str(f); }
+        t.push_str(" }");
+    }
+    (t, np, cp, inner)
+}
+
+const XSCHEMA: &str = "type Query { a: Int b: Int s: Int } type Subscription { s: Int a: Int b: Int }";
+
+fn xbuild(schema: &Valid<Schema>, texts: &[String]) -> (ExecutableDocument, DiagnosticList) {
+    let mut errors = DiagnosticList::new(Default::default());
+    let mut b = ExecutableDocument::builder(Some(schema), &mut errors);
+    for (i, t) in texts.iter().enumerate() { b = b.parse(t.clone(), format!("s{i}.graphql")); }
+    let doc = b.build();
+    (doc, errors)
+}
+
+fn xcase(ctx: &mut Ctx, tpl: &Templates, schema: &Valid<Schema>, xs: &[X], cuts: &[usize]) {
+    let mut srcs: Vec<Vec<X>> = vec![];
+    let mut prev = 0;
+    for &c in cuts { srcs.push(xs[prev..c].to_vec()); prev = c; }
+    srcs.push(xs[prev..].to_vec());
+    let run = |ctx: &mut Ctx, srcs: &[Vec<X>]| -> (String, Vec<String>, Vec<String>) {
+        let (mut texts, mut bases, mut encs, mut base) = (vec![], vec![], vec![], 0usize);
+        for src in srcs {
+            bases.push(base);
+            let mut text = String::new();
+            let mut ed = vec![];
+            for x in src {
+                let (t, np, cp, inner) = xrender(x);
+                let start = base + text.len();
+                let root_ok = x.optype != "mutation";
+                let cond_ok = x.cond != "Nope";
+                let inner: Vec<usize> = if x.kind == 1 && !cond_ok { vec![] } else { inner };
+                ed.push(format!("{},{},{start},{},{},{},{},{}", ["O", "F", "T"][x.kind as usize], x.name.as_deref().unwrap_or("-"), start + np, start + cp,
+                    root_ok as u8, cond_ok as u8, inner.iter().map(|p| (start + p).to_string()).collect::<Vec<_>>().join("+")));
+                text.push_str(&t); text.push('\n');
+            }
+            base += text.len();
+            texts.push(text);
+            encs.push(ed.join(";"));
+        }
+        let (doc, errors) = xbuild(schema, &texts);
+        let locs = Locs::new(&doc.sources, &bases);
+        let p = |l: Option<SourceSpan>| locs.pos(l).map(|x| x.to_string()).unwrap_or("-".into());
+        let mut errors = Some(errors);
+        // the builder leaves its diagnostics unsorted; `DiagnosticList::merge` is the public way to sort them
+        if let Some(l) = errors.as_mut() { l.merge(DiagnosticList::new(Default::default())); }
+        let line = format!("A[{}]N[{}]F[{}]E[{}]",
+            doc.operations.anonymous.as_ref().map(|o| p(o.location())).unwrap_or("-".into()),
+            doc.operations.named.iter().map(|(n, o)| format!("{n}@{}", p(o.location()))).collect::<Vec<_>>().join(","),
+            doc.fragments.iter().map(|(n, f)| format!("{n}@{}", p(f.location()))).collect::<Vec<_>>().join(","),
+            diag_line(&errors, &locs, tpl));
+        if let Some(l) = &errors { if l.is_empty() { ctx.stat("exec_builds_without_diagnostics"); } for d in l.iter() { let c = tpl.classify(&d.error.to_string()); ctx.stat(&format!("exec_diag:{}", c.split('(').next().unwrap_or("?"))); } }
+        ctx.case("c13.exec", &[enc(&encs.join("|"))], &line);
+        let names = vec![format!("anon={}", doc.operations.anonymous.is_some()), doc.operations.named.keys().map(|k| k.to_string()).collect::<Vec<_>>().join(","), doc.fragments.keys().map(|k| k.to_string()).collect::<Vec<_>>().join(","), doc.to_string()];
+        (texts.concat(), names, messages(&errors))
+    };
+    let (text, names, msgs) = run(ctx, &srcs);
+    if srcs.len() > 1 {
+        let (_, names1, msgs1) = run(ctx, &[xs.to_vec()]);
+        ctx.stat("exec_split_vs_concat");
+        let inp = format!("executable sources cut at {cuts:?}: {}", text.replace('\n', " "));
+        if names != names1 { ctx.fail("executable-sources-vs-concat-definitions", &inp, &format!("split {names:?} / concatenated {names1:?}")); }
+        if msgs != msgs1 { ctx.fail("executable-sources-vs-concat-diagnostics", &inp, &format!("split {msgs:?} / concatenated {msgs1:?}")); }
+        if !msgs1.is_empty() { ctx.stat("exec_with_diagnostics"); }
+        ctx.nontrivial(&inp);
+    }
+}
+
+fn gen_x(ctx: &mut Ctx) -> X {
+    let r = ctx.rng.below(100);
+    let nf = 1 + ctx.rng.below(3);
+    let fields: Vec<&'static str> = (0..nf).map(|_| *ctx.rng.pick(&["a", "b", "s", "a", "b", "s", "a", "zz"])).collect();
+    if r < 55 {
+        let optype = *ctx.rng.pick(&["query", "query", "query", "query", "subscription", "subscription", "mutation"]);
+        let name = if ctx.rng.chance(1, 4) { None } else { Some(ctx.rng.pick(&["A", "B", "C", "D", "E"]).to_string()) };
+        X { kind: 0, optype, name, cond: "", fields }
+    } else if r < 92 {
+        X { kind: 1, optype: "", name: Some(ctx.rng.pick(&["F", "G", "H", "A"]).to_string()), cond: *ctx.rng.pick(&["Query", "Query", "Query", "Subscription", "Subscription", "Nope"]), fields }
+    } else {
+        X { kind: 2, optype: "", name: Some(ctx.rng.pick(&["S", "T"]).to_string()), cond: "", fields: vec![] }
+    }
+}
+
+// ---------------------------------------------------------------- free-text sources (oracle only)
+
+const SNIPPETS: [&str; 22] = [
+    "\"\"\"desc\"\"\" type Query { \"d\" a(x: Int = 1 @d0): Int @deprecated(reason: \"r\") b: [T0!]! }",
+    "extend type Query @d0(x: 1) { c: T0 a: String }",
+    "type T0 implements I0 & I0 { i: Int i: Float }",
+    "extend type T0 implements I0 @d1 { j(a: [Int]): ID }",
+    "interface I0 { i: Int }",
+    "extend interface I0 @d0 { k: Int i: Int }",
+    "\"u\" union U @d0 = Query | T0 | Query",
+    "extend union U = T0 | T1",
+    "extend union T0 = U",
+    "enum E { A @deprecated B A }",
+    "extend enum E @d0 { C B }",
+    "input In { a: Int = 3 b: In a: String }",
+    "extend input In { c: [E] = [A] b: Int }",
+    "scalar Sc @specifiedBy(url: \"u\")",
+    "extend scalar Sc @d0",
+    "extend scalar Int @d1",
+    "directive @d0(x: Int) repeatable on OBJECT | SCHEMA | UNION | ENUM | SCALAR | INTERFACE | ARGUMENT_DEFINITION",
+    "directive @d0 on FIELD",
+    "schema @d0 { query: Query mutation: T0 }",
+    "extend schema @d0(x: 2) { subscription: T0 query: T0 }",
+    "extend schema @d1",
+    "query Named { a } fragment Fr on Query { a }",
+];
+
+fn free_text_case(ctx: &mut Ctx, picks: &[usize], cuts: &[usize], adopt: bool) {
+    let mut texts = vec![];
+    let mut prev = 0;
+    let mk = |r: &[usize]| r.iter().map(|i| format!("{}\n", SNIPPETS[*i])).collect::<String>();
+    for &c in cuts { texts.push(mk(&picks[prev..c])); prev = c; }
+    texts.push(mk(&picks[prev..]));
+    let (_, a) = observe(&texts, adopt, false);
+    let (_, b) = observe(&[texts.concat()], adopt, false);
+    ctx.stat("free_text_split_vs_concat");
+    let inp = format!("adopt={adopt} sources: {}", show(&texts));
+    if a.dump != b.dump { ctx.fail("sources-vs-concat-definitions", &inp, &format!("built schema differs: split {} / concatenated {}", a.dump, b.dump)); }
+    else if a.text != b.text { ctx.fail("sources-vs-concat-serialized", &inp, "serialized schema differs"); }
+    if a.msgs != b.msgs { ctx.fail("sources-vs-concat-diagnostics", &inp, &format!("diagnostics differ: split {:?} / concatenated {:?}", a.msgs, b.msgs)); }
+}
+
+fn random_cuts(ctx: &mut Ctx, n: usize) -> Vec<usize> {
+    // every source keeps at least one definition (an empty document is a syntax error by itself)
+    if n < 2 { return vec![]; }
+    let k = ctx.rng.below(4);
+    let mut cuts: Vec<usize> = (0..k).map(|_| 1 + ctx.rng.below(n - 1)).collect();
+    cuts.sort();
+    cuts.dedup();
+    cuts
+}
+
+pub fn run(ctx: &mut Ctx) {
+    let xschema = Schema::parse_and_validate(XSCHEMA, "xschema.graphql").expect("executable test schema");
+    let tpl = Templates::new(&xschema);
+    ctx.stat_n("message_templates_learned", tpl.map.len() as u64);
+
+    // 1. regression inputs: every cut point, both configurations
+    for ds in regressions() {
+        for cut in 0..ds.len() {
+            let cuts: Vec<usize> = if cut == 0 { vec![] } else { vec![cut] };
+            for (adopt, ignore) in [(false, false), (true, false), (false, true)] {
+                if cut > 1 && (adopt || ignore) { continue; }
+                schema_case(ctx, &tpl, &ds, &cuts, adopt, ignore, cut);
+            }
+        }
+    }
+    let xregs: Vec<Vec<X>> = vec![
+        vec![X { kind: 0, optype: "query", name: None, cond: "", fields: vec!["a"] }, X { kind: 0, optype: "query", name: Some("A".into()), cond: "", fields: vec!["a"] },
+             X { kind: 0, optype: "query", name: Some("B".into()), cond: "", fields: vec!["zz"] }, X { kind: 0, optype: "query", name: None, cond: "", fields: vec!["b"] },
+             X { kind: 0, optype: "query", name: None, cond: "", fields: vec!["b"] }],
+        vec![X { kind: 0, optype: "query", name: Some("A".into()), cond: "", fields: vec!["a"] }, X { kind: 0, optype: "query", name: None, cond: "", fields: vec!["a"] },
+             X { kind: 0, optype: "mutation", name: Some("A".into()), cond: "", fields: vec!["a"] }, X { kind: 0, optype: "query", name: Some("A".into()), cond: "", fields: vec!["zz"] }],
+        vec![X { kind: 0, optype: "mutation", name: Some("A".into()), cond: "", fields: vec!["zz"] }, X { kind: 0, optype: "query", name: Some("A".into()), cond: "", fields: vec!["zz", "a"] },
+             X { kind: 0, optype: "mutation", name: None, cond: "", fields: vec!["a"] }, X { kind: 0, optype: "subscription", name: None, cond: "", fields: vec!["s"] }],
+        vec![X { kind: 1, optype: "", name: Some("F".into()), cond: "Nope", fields: vec!["zz"] }, X { kind: 1, optype: "", name: Some("F".into()), cond: "Query", fields: vec!["zz", "a"] },
+             X { kind: 1, optype: "", name: Some("F".into()), cond: "Query", fields: vec!["zz"] }, X { kind: 2, optype: "", name: Some("S".into()), cond: "", fields: vec![] }],
+    ];
+    for xs in &xregs {
+        for cut in 0..xs.len() { xcase(ctx, &tpl, &xschema, xs, &if cut == 0 { vec![] } else { vec![cut] }); }
+        xcase(ctx, &tpl, &xschema, xs, &(1..xs.len()).collect::<Vec<_>>());
+    }
+
+    // 2. random definition sequences over few names (collisions, duplicates and mismatches are frequent)
+    let n_cases = if ctx.thorough { 40_000 } else { 4_000 };
+    let pools: [&[&str]; 4] = [&["T0", "T1"], &["T0", "T1", "T2", "Query"], &["T0", "Query", "Mutation", "Int", "__Type"], &["T3", "T4", "T5", "Subscription", "ID", "__TypeKind"]];
+    for i in 0..n_cases {
+        let names = pools[ctx.rng.below(pools.len())];
+        let n = 1 + ctx.rng.below(if ctx.thorough { 12 } else { 8 });
+        let ds: Vec<D> = (0..n).map(|_| gen_def(ctx, names)).collect();
+        let cuts = random_cuts(ctx, n);
+        let adopt = ctx.rng.chance(1, 4);
+        let ignore = ctx.rng.chance(1, 6);
+        schema_case(ctx, &tpl, &ds, &cuts, adopt, ignore, i);
+    }
+
+    // 3. executable documents
+    let n_x = if ctx.thorough { 30_000 } else { 3_000 };
+    for _ in 0..n_x {
+        let n = 1 + ctx.rng.below(7);
+        let xs: Vec<X> = (0..n).map(|_| gen_x(ctx)).collect();
+        let mut cuts = random_cuts(ctx, n);
+        if cuts.is_empty() && n > 1 { cuts.push(1 + ctx.rng.below(n - 1)); }
+        xcase(ctx, &tpl, &xschema, &xs, &cuts);
+    }
+
+    // 4. richer free-text definitions (descriptions, arguments, values): oracle only
+    let n_f = if ctx.thorough { 20_000 } else { 2_000 };
+    for _ in 0..n_f {
+        let n = 2 + ctx.rng.below(7);
+        let picks: Vec<usize> = (0..n).map(|_| ctx.rng.below(SNIPPETS.len())).collect();
+        let mut cuts = random_cuts(ctx, n);
+        if cuts.is_empty() { cuts.push(1 + ctx.rng.below(n - 1)); }
+        let adopt = ctx.rng.chance(1, 4);
+        free_text_case(ctx, &picks, &cuts, adopt);
+    }
+}
